@@ -1100,7 +1100,7 @@ impl Engine for C14 {
         "fault_enumeration"
     }
     fn rule(&self) -> String {
-        "Per seeded scenario (calendar, victim day in early January / December / mid-year so the year file is ~100 B, ~6 KiB or >8 KiB = two write calls, optional earlier complete run leaving an older file, legal short writes, a look-up that makes the process download - Jan 1-7 look-backs write two year files) the real download+cache-write path runs once, fault-free, while SimFs journals every operation. Fault space: every prefix of that journal = a crash after each operation (mkdir, chmod, create, truncate, each write, fsync, rename, close) and inside every write at byte offsets (thorough: all of them; quick: all operation boundaries + ~192 offsets biased to the last three rows and the first row). Power loss adds, after every rename/link and at the end, states in which un-synced data of a file is lost entirely or cut (thorough: every offset; quick: 48 biased offsets). Write errors add states produced by re-executing the run live with the disk filling up after N bytes (ENOSPC: short write, then errors; quick 14, thorough 96 offsets biased to the last rows, to just past every 8 KiB buffer boundary and to the first row): the run handles the error and exits, its own answers must be right, and the recovery history runs over what it left. A third of the scenarios start from the debris of an even earlier killed run (e.g. a stale temporary file); in half of those that run's clock was 3-60 days ahead (a clock jump corrected afterwards), so its year content is longer than anything a correct run writes, and it died before its first rename. A third of the victims look further dates up in other years and write up to four year files. For each distinct surviving disk, two fresh simulated processes (same day; a later day) look up every date in the last three and the first surviving rows, the day after, today, the victim's date and two seeded dates. For every n-th distinct state (quick 24th, thorough 6th) the same-day recovery run, which usually downloads again, is itself killed at sampled points of its own journalled write, and the later-day run recovers from that. Oracle: each recovery look-up equals the look-up by the real code with no cache. evaluations = crash states explored; distinct_nontrivial = distinct surviving disks (digest of names + contents).".to_string()
+        "Per seeded scenario (calendar, victim day in early January / December / mid-year so the year file is ~100 B, ~6 KiB or >8 KiB = two write calls, optional earlier complete run leaving an older file, legal short writes, a look-up that makes the process download - Jan 1-7 look-backs write two year files) the real download+cache-write path runs once, fault-free, while SimFs journals every operation. Fault space: every prefix of that journal = a crash after each operation (mkdir, chmod, create, truncate, each write, fsync, rename, close) and inside every write at byte offsets (thorough: all of them; quick: all operation boundaries + ~192 offsets biased to the last three rows and the first row). Power loss adds, after every rename/link and at the end, states in which un-synced data of a file is lost entirely or cut (thorough: every offset; quick: 48 biased offsets). Write errors add states produced by re-executing the run live with the disk filling up after N bytes (ENOSPC: short write, then errors; quick 14, thorough 96 offsets biased to the last rows, to just past every 8 KiB buffer boundary and to the first row): the run handles the error and exits, its own answers must be right, and the recovery history runs over what it left. A third of the scenarios start from the debris of an even earlier killed run (e.g. a stale temporary file); in half of those that run's clock was 3-60 days ahead (a clock jump corrected afterwards), so its year content is longer than anything a correct run writes, and it died before its first rename. A third of the victims look further dates up in other years and write up to four year files. A quarter of the scenarios put foreign files with wrong rates into the directory, an eighth use a directory whose path is not valid UTF-8, a sixth keep the cache behind links (year files that are symbolic links into another directory, the directory itself a symbolic link, dangling links, or year files with a second hard link). For each distinct surviving disk, two fresh simulated processes (same day; a later day) look up every date in the last three and the first surviving rows, the day after, today, the victim's date and two seeded dates. For every n-th distinct state (quick 24th, thorough 6th) the same-day recovery run, which usually downloads again, is itself killed at sampled points of its own journalled write, and the later-day run recovers from that. Oracle: each recovery look-up equals the look-up by the real code with no cache. evaluations = crash states explored; distinct_nontrivial = distinct surviving disks (digest of names + contents).".to_string()
     }
     fn state_measure(&self) -> String {
         "distinct (crash position class: step boundary kind + target, or write target + cut position within the row; older file present) pairs".to_string()
